@@ -38,9 +38,12 @@ class User implements Namespace {}
 class Group implements Namespace {
   related: { members: (User | SubjectSet<Group, "members">)[] }
 }
+class Team implements Namespace {
+  related: { members: User[] }
+}
 class Doc implements Namespace {
   related: {
-    viewers: (User | SubjectSet<Group, "members">)[]
+    viewers: (User | SubjectSet<Group, "members"> | SubjectSet<Team, "members">)[]
     banned: User[]
     parents: Doc[]
   }
@@ -51,6 +54,13 @@ class Doc implements Namespace {
 }
 `
 
+// hcheckOPLNoTeam is hcheckOPL after the namespace Team was removed from the
+// configuration (its relationships stay in the database).
+var hcheckOPLNoTeam = strings.Replace(strings.Replace(hcheckOPL, `class Team implements Namespace {
+  related: { members: User[] }
+}
+`, "", 1), ` | SubjectSet<Team, "members">`, "", 1)
+
 // apiEnv is a registry configured from an OPL file, with REST routers and gRPC
 // handlers, used by the handler streams.
 type apiEnv struct {
@@ -60,6 +70,8 @@ type apiEnv struct {
 	write   http.Handler
 	chk     *check.Handler
 	oplFile string
+	curOPL  string
+	nOPL    int
 }
 
 func newAPIEnv(t testing.TB, opl string) *apiEnv {
@@ -76,7 +88,28 @@ func newAPIEnv(t testing.TB, opl string) *apiEnv {
 	if _, err := reg.Config(ctx).NamespaceManager(); err != nil {
 		t.Fatal(err)
 	}
-	return &apiEnv{reg: reg, ctx: ctx, read: reg.ReadRouter(ctx), write: reg.WriteRouter(ctx), chk: check.NewHandler(reg), oplFile: f}
+	return &apiEnv{reg: reg, ctx: ctx, read: reg.ReadRouter(ctx), write: reg.WriteRouter(ctx), chk: check.NewHandler(reg), oplFile: f, curOPL: opl}
+}
+
+// setOPL switches the configuration to the given OPL document (a new file, so that the
+// namespace manager is rebuilt).
+func (e *apiEnv) setOPL(opl string) error {
+	if e.curOPL == opl {
+		return nil
+	}
+	e.nOPL++
+	f := filepath.Join(filepath.Dir(e.oplFile), fmt.Sprintf("ns-%d.ts", e.nOPL))
+	if err := os.WriteFile(f, []byte(opl), 0o644); err != nil {
+		return err
+	}
+	if err := e.reg.Config(e.ctx).Set(config.KeyNamespaces, map[string]any{"location": "file://" + f}); err != nil {
+		return err
+	}
+	if _, err := e.reg.Config(e.ctx).NamespaceManager(); err != nil {
+		return err
+	}
+	e.curOPL = opl
+	return nil
 }
 
 func (e *apiEnv) do(h http.Handler, method, target string, body []byte) (code int, resp []byte, panicked string) {
@@ -141,8 +174,8 @@ type hEntry struct {
 }
 
 func (e *apiEnv) genTuple(r *rand.Rand, objs, subs []string) *ketoapi.RelationTuple {
-	nss := []string{"Doc", "Doc", "Doc", "Group", "User", "Nope"}
-	rels := map[string][]string{"Doc": {"viewers", "banned", "parents", "view", "ok", "undeclared"}, "Group": {"members", "undeclared"}, "User": {"x"}, "Nope": {"viewers"}}
+	nss := []string{"Doc", "Doc", "Doc", "Group", "User", "Nope", "Team"}
+	rels := map[string][]string{"Doc": {"viewers", "banned", "parents", "view", "ok", "undeclared"}, "Group": {"members", "undeclared"}, "User": {"x"}, "Nope": {"viewers"}, "Team": {"members"}}
 	ns := pick(r, nss)
 	t := &ketoapi.RelationTuple{Namespace: ns, Object: pick(r, objs), Relation: pick(r, rels[ns])}
 	switch k := r.Intn(12); {
@@ -150,7 +183,7 @@ func (e *apiEnv) genTuple(r *rand.Rand, objs, subs []string) *ketoapi.RelationTu
 		s := pick(r, subs)
 		t.SubjectID = &s
 	case k < 11:
-		sn := pick(r, []string{"Group", "Group", "Doc", "Nope"})
+		sn := pick(r, []string{"Group", "Group", "Doc", "Nope", "Team"})
 		sr := "members"
 		if sn == "Doc" {
 			sr = pick(r, []string{"viewers", "view"})
@@ -207,6 +240,13 @@ func streamHCheck(t *testing.T, o *Out) {
 	subs := []string{"alice", "bob", "eve", ""}
 	for i := 0; i < n; i++ {
 		if i%10 == 0 {
+			// the full configuration while the state is written (and for most blocks of ten
+			// cases); every third block then runs after the namespace Team was REMOVED from the
+			// configuration: its relationships are still stored and were checked before, but a
+			// relationship in a namespace that is unknown now must not be reported as allowed
+			if err := env.setOPL(hcheckOPL); err != nil {
+				t.Fatal(err)
+			}
 			// new stored state
 			if err := env.reg.RelationTupleManager().DeleteAllRelationTuples(env.ctx, &relationtuple.RelationQuery{}); err != nil {
 				t.Fatal(err)
@@ -229,13 +269,26 @@ func streamHCheck(t *testing.T, o *Out) {
 				&ketoapi.RelationTuple{Namespace: "Doc", Object: "b", Relation: "viewers", SubjectSet: &ketoapi.SubjectSet{Namespace: "Group", Object: "a", Relation: gmem}},
 				&ketoapi.RelationTuple{Namespace: "Group", Object: "a", Relation: gmem, SubjectSet: &ketoapi.SubjectSet{Namespace: "Group", Object: "b", Relation: gmem}},
 				&ketoapi.RelationTuple{Namespace: "Group", Object: "b", Relation: gmem, SubjectSet: &ketoapi.SubjectSet{Namespace: "Group", Object: "c", Relation: gmem}},
-				&ketoapi.RelationTuple{Namespace: "Group", Object: "c", Relation: gmem, SubjectID: &alice})
+				&ketoapi.RelationTuple{Namespace: "Group", Object: "c", Relation: gmem, SubjectID: &alice},
+				&ketoapi.RelationTuple{Namespace: "Team", Object: "a", Relation: gmem, SubjectID: &alice},
+				&ketoapi.RelationTuple{Namespace: "Doc", Object: "c", Relation: "viewers", SubjectSet: &ketoapi.SubjectSet{Namespace: "Team", Object: "a", Relation: gmem}})
 			its, err := env.reg.Mapper().FromTuple(env.ctx, ts...)
 			if err != nil {
 				t.Fatal(err)
 			}
 			if err := env.reg.RelationTupleManager().WriteRelationTuples(env.ctx, its...); err != nil {
 				t.Fatal(err)
+			}
+			ta := &ketoapi.RelationTuple{Namespace: "Team", Object: "a", Relation: "members", SubjectID: &alice}
+			if it, err := env.reg.ReadOnlyMapper().FromTuple(env.ctx, ta); err == nil {
+				// warm whatever the read path remembers about the namespace Team
+				env.reg.PermissionEngine().CheckRelationTuple(env.ctx, it[0], 0)
+			}
+			if (i/10)%3 == 2 {
+				if err := env.setOPL(hcheckOPLNoTeam); err != nil {
+					t.Fatal(err)
+				}
+				o.Count("config:team-removed")
 			}
 			if envInt("VERIF_HC_DUMP", -1) == i {
 				for _, x := range ts {
@@ -258,17 +311,22 @@ func streamHCheck(t *testing.T, o *Out) {
 				tt = &ketoapi.RelationTuple{Namespace: "Doc", Object: pick(r, []string{"a", "b"}), Relation: pick(r, []string{"viewers", "view", "ok"}), SubjectID: &al}
 			}
 			en := hEntry{t: tt, tupleOk: tt.SubjectID != nil || tt.SubjectSet != nil, nsKnown: true}
-			if !en.tupleOk {
-				nm, _ := env.reg.Config(env.ctx).NamespaceManager()
-				if _, err := nm.GetNamespaceByName(env.ctx, tt.Namespace); err != nil {
+			// known namespaces: asked from the namespace manager of the configuration in force,
+			// not through the mapper the handlers use
+			nm, _ := env.reg.Config(env.ctx).NamespaceManager()
+			if _, err := nm.GetNamespaceByName(env.ctx, tt.Namespace); err != nil {
+				en.nsKnown = false
+			}
+			if en.nsKnown && tt.SubjectID == nil && tt.SubjectSet != nil {
+				if _, err := nm.GetNamespaceByName(env.ctx, tt.SubjectSet.Namespace); err != nil {
 					en.nsKnown = false
 				}
 			}
-			if en.tupleOk {
+			if en.tupleOk && en.nsKnown {
 				it, err := env.reg.ReadOnlyMapper().FromTuple(env.ctx, tt)
 				switch {
 				case errors.Is(err, herodot.ErrNotFound):
-					en.nsKnown = false
+					t.Fatalf("mapper: namespace of %s unknown to the mapper but known to the namespace manager", tt)
 				case err != nil:
 					t.Fatalf("mapper: %v", err)
 				default:
